@@ -1,38 +1,37 @@
 import AFV.Driver.Proto
+import AFV.Spec.Front
 namespace AFV.Driver.C17
-open Lean AFV.Proto
+open Lean AFV.Proto AFV.Front
 
-/-- (e,l) strictly dominated by (e',l'). -/
-def domBy (p q : Int × Int) : Bool := q.1 ≤ p.1 && q.2 ≤ p.2 && (q.1 != p.1 || q.2 != p.2)
-
-/-- Pareto front of (energy, latency) pairs (all-pairs definition). -/
+/-- kept for the other mapper-level drivers: front of (energy, latency) pairs through the proved `frontFast`. -/
 def front2 (rows : List (Int × Int)) : List (Int × Int) :=
-  rows.filter (fun p => !(rows.any (fun q => domBy p q)))
+  (frontFast (rows.map (fun p => [p.1, p.2]))).filterMap (fun v => match v with | [a, b] => some (a, b) | _ => none)
 
-def minOf (l : List Int) : Option Int := l.foldl (fun acc x => match acc with | none => some x | some a => some (min a x)) none
-
-private def pair? (j : Json) : Option (Int × Int) := do
+private def vec2? (j : Json) : Option Vec := do
   let a ← intList? j
-  match a with
-  | [e, l] => some (e, l)
-  | _ => none
+  if a.length == 2 then some a else none
 
-/-- {"op":"minima","rows":[[E,L],…]} → minima of E, L, E·L over the FRONT of the rows, and over all rows. -/
+private def optJ : Option Int → Json
+  | some i => ofInt i
+  | none => Json.null
+
+/-- {"op":"minima","rows":[[E,L],…]} → minima of E, L, E·L over the FRONT (`AFV.Front.frontFast`, proved equal to the
+all-pairs `front`) of the rows, and over all rows (theorem `AFV.C17.metric_consistency` says they coincide). -/
 def handle (req : Json) : Json :=
   match (field? req "op").bind getStr? with
   | some "minima" =>
     match (field? req "rows").bind getArr? with
     | some arr =>
-      match arr.toList.mapM pair? with
+      match arr.toList.mapM vec2? with
       | some rows =>
-        let f := front2 rows
-        match minOf (f.map (·.1)), minOf (f.map (·.2)), minOf (f.map (fun p => p.1 * p.2)),
-              minOf (rows.map (·.1)), minOf (rows.map (·.2)), minOf (rows.map (fun p => p.1 * p.2)) with
-        | some a, some b, some c, some a', some b', some c' =>
-          Json.mkObj [("minE", ofInt a), ("minL", ofInt b), ("minEDP", ofInt c),
-                      ("allMinE", ofInt a'), ("allMinL", ofInt b'), ("allMinEDP", ofInt c'),
-                      ("frontSize", ofNat f.length)]
-        | _, _, _, _, _, _ => err "empty"
+        if rows.isEmpty then err "empty" else
+        let f := frontFast rows
+        let e := fun (v : Vec) => v.getD 0 0
+        let l := fun (v : Vec) => v.getD 1 0
+        let p := fun (v : Vec) => v.getD 0 0 * v.getD 1 0
+        Json.mkObj [("minE", optJ (minOf e f)), ("minL", optJ (minOf l f)), ("minEDP", optJ (minOf p f)),
+                    ("allMinE", optJ (minOf e rows)), ("allMinL", optJ (minOf l rows)), ("allMinEDP", optJ (minOf p rows)),
+                    ("frontSize", ofNat f.length)]
       | none => err "malformed"
     | none => err "malformed"
   | _ => err "bad-op"
